@@ -25,4 +25,6 @@ for d in sorted(glob.glob(os.path.join(ROOT, "seeded", "*"))):
     conf = "yes" if m.get("confirmed") else "NO"
     if m.get("obsolete_after"):
         conf += " (at the commit it was written for; obsolete after %s)" % m["obsolete_after"]
+    if m.get("outside_quantifier"):
+        conf += " (outside the property's operation set: see meta.json)"
     print("| `%s` | %s | %s | %s |" % (os.path.basename(d), m.get("breaks_property"), conf, "; ".join(res)))
